@@ -618,3 +618,111 @@ def rule_unconditional(S, res, phases, cs):
                 else:
                     res.ok("R2.7", inst, c.where(), "no iteration reaches the next one without passing the check (own-party / own-data skips only: %d)" % len(by))
     res.count("looped_checks", n)
+
+
+ACC_OPS = ("BitXor", "BitOr", "BitAnd", "Add", "AddUnchecked", "AddWithOverflow", "Sub", "Mul")
+ACC_CALLS = ("bitxor_assign", "bitor_assign", "bitand_assign", "add_assign", "sub_assign", "mul_assign", "bitxor", "bitor", "add")
+
+
+def rule_per_element(S, res, phases, cs):
+    """R2.8: a demanded equality / zero test is applied to each element of the message, not to a
+    value into which the elements of a received vector were folded first (`acc ^= h[ll]` over all
+    ll, then `acc != 0`): in an aggregate the contributions of different elements cancel - e.g. two
+    values that are both off by the global key.  Folding over *parties* for one element, and
+    random linear combinations (terms that are products / hashes, not the plain elements), are
+    what the protocol does elsewhere and are not matched."""
+    fg = S.fg
+    all_comp = set()
+    for d in S.comp.values():
+        all_comp |= set(d.keys())
+    n = 0
+    bad = 0
+    seen = set()
+    for l, ob in OBL.items():
+        if ob["phase"] not in phases:
+            continue
+        for c in [c for c in cs if l in c.labels and ({"ZERO", "CMP"} & c.ing)]:
+            if (c.bk, c.block) in seen:
+                continue
+            seen.add((c.bk, c.block))
+            n += 1
+            b, bk = c.body, c.bk
+            locs = {x[1] for x in c.cond_nodes if x[0] == bk}
+            loops = S.loops(b)
+            hit = None
+            for bi, blk in enumerate(b.blocks):
+                inl = [(h, body) for h, body in loops if bi in body]
+                if not inl:
+                    continue
+                updates = []
+                for st in blk["s"]:
+                    if st["k"] == "assign" and not st["p"]["pr"] and st["p"]["l"] in locs and st["r"]["k"] == "bin" and st["r"]["op"] in ACC_OPS:
+                        a, b2 = st["r"]["a"], st["r"]["b"]
+                        for x, y in ((a, b2), (b2, a)):
+                            if x["k"] != "const" and not x["p"]["pr"] and _copy_of(b, x["p"]["l"], st["p"]["l"]) and y["k"] != "const":
+                                updates.append((st["p"]["l"], y))
+                t = blk["t"]
+                if t["k"] == "call":
+                    nm = callee_names(t)
+                    tl = nm[-1].rsplit("::", 1)[-1] if nm else ""
+                    if tl in ACC_CALLS and tl.endswith("_assign") and len(t["args"]) == 2 and t["args"][0]["k"] != "const":
+                        tgt = _ref_target(b, t["args"][0]["p"]["l"])
+                        if tgt in locs and t["args"][1]["k"] != "const":
+                            updates.append((tgt, t["args"][1]))
+                for acc, term in updates:
+                    # the accumulated term is a plain element of the message
+                    tn = fg.backward(fg.operand_nodes(bk, term), node_ok=lambda x: x[0] == bk, edge_ok=lambda e: e.kind in ("copy", "ref", "cast") or (e.kind == "call" and (e.info or {}).get("names") and e.info["names"][-1].rsplit("::", 1)[-1] in ("deref", "clone", "copied", "cloned", "to_owned")))
+                    if not any(x in all_comp for x in tn):
+                        continue
+                    # innermost loop of the update iterates the scalar elements of a component, and
+                    # the accumulator lives outside that loop
+                    h, body = min(inl, key=lambda hb: len(hb[1]))
+                    defs_out = [d for d in defs_of(b, acc) if d[0] not in body]
+                    if not defs_out:
+                        continue
+                    for cbi, ct in b.calls():
+                        if cbi not in body:
+                            continue
+                        cn = callee_names(ct)
+                        if not cn or not cn[0].endswith("Iterator::next") or not ct["args"] or ct["args"][0]["k"] == "const":
+                            continue
+                        inner = [hb for hb in loops if cbi in hb[1]]
+                        if not inner or min(inner, key=lambda hb: len(hb[1]))[0] != h:
+                            continue
+                        dty = b.locals[ct["d"]["l"]]["ty"]
+                        if "Vec<" in dty or "[" in dty.replace("[u8; ", ""):
+                            continue   # iterates per-party vectors, not scalar elements
+                        src = fg.backward(fg.operand_nodes(bk, ct["args"][0]), node_ok=lambda x: x[0] == bk, edge_ok=secmod.struct_edge)
+                        if any(x in all_comp for x in src):
+                            hit = (bi, acc)
+            inst = "%s|%s|per-element" % (b.owner.rsplit("::", 1)[-1], "/".join(sorted(c.labels))[:40])
+            if hit:
+                bad += 1
+                res.bad("R2.8", inst, "the tested value `%s` is folded over the elements of a received vector before it is compared: deviations in different elements cancel in the aggregate (e.g. two entries both offset by the global key), so the per-element relation is not enforced"
+                        % (b.locals[hit[1]]["name"] or "_%d" % hit[1]), where(b, hit[0]), key="R2.8|%s|%s" % (b.owner.rsplit("::", 1)[-1], "/".join(sorted(c.labels))[:40]))
+    res.count("equality_checks_examined_for_aggregation", n)
+    if not bad:
+        res.ok("R2.8", "engine", "", "%d equality / zero checks on message data: none tests a value folded over the elements of a received vector" % n)
+
+
+def _copy_of(b, l, target, depth=0):
+    if l == target:
+        return True
+    if depth > 4:
+        return False
+    d = defs_of(b, l)
+    if len(d) == 1 and d[0][1] != "t" and d[0][2]["k"] == "use" and d[0][2]["o"]["k"] != "const" and not d[0][2]["o"]["p"]["pr"]:
+        return _copy_of(b, d[0][2]["o"]["p"]["l"], target, depth + 1)
+    return False
+
+
+def _ref_target(b, l, depth=0):
+    d = defs_of(b, l)
+    if len(d) == 1 and d[0][1] != "t" and depth < 4:
+        r = d[0][2]
+        if r["k"] in ("ref", "rawptr") and not r["p"]["pr"]:
+            return r["p"]["l"]
+        if r["k"] in ("ref", "rawptr") and r["p"]["pr"] == ["deref"] or (r["k"] == "use" and r["o"]["k"] != "const" and not r["o"]["p"]["pr"]):
+            src = r["p"]["l"] if r["k"] in ("ref", "rawptr") else r["o"]["p"]["l"]
+            return _ref_target(b, src, depth + 1)
+    return None
